@@ -4,7 +4,7 @@
 (* monitor shared by the model (OpMC) and the trace specification          *)
 (* (OpTrace): one source of truth for what "the property holds" means.     *)
 (***************************************************************************)
-EXTENDS GroupBy, Operators, ConsistentOutput, Tvf
+EXTENDS GroupBy, Operators, ConsistentOutput, Tvf, InputRules
 
 OpInit(cfg) == CASE cfg.op = "gb"  -> GbInit(cfg)
                  [] cfg.op = "mdw" -> MdwInit
@@ -35,22 +35,6 @@ OpBatch(cfg, inBag) ==
     [] cfg.op = "distinct" -> DistinctBatch(cfg, inBag)
     [] cfg.op = "etbuf"    -> inBag
     [] cfg.op = "cout"     -> inBag
-
-(* ---- input discipline (DESIGN.md section 5) ---- *)
-RECURSIVE CountOfRow(_, _, _)
-CountOfRow(s, row, tt) ==
-  IF s = <<>> THEN 0
-  ELSE LET m == s[Len(s)] IN
-       CountOfRow(SubSeq(s, 1, Len(s) - 1), row, tt) +
-       (IF IsRec(m) /\ m.v = row /\ ((m.t = 0) = (tt = 0)) /\ (m.r \/ m.t <= tt) THEN Sgn(m) ELSE 0)
-
-CONSTANT AllowLate   \* TRUE: late records are part of the input universe (C15/C16/C17 hold for them too; C18 assumes none)
-
-OkAppend(s, m) == IF IsWm(m) THEN m.w > LastWmOf(s)
-                  ELSE /\ (AllowLate \/ m.t = 0 \/ m.t > LastWmOf(s))            \* no late records
-                       /\ (m.r => CountOfRow(s, m.v, m.t) > 0)      \* never retract an absent row (also in event-time order)
-RECURSIVE OkScript(_)
-OkScript(s) == s = <<>> \/ (OkScript(SubSeq(s, 1, Len(s) - 1)) /\ OkAppend(SubSeq(s, 1, Len(s) - 1), s[Len(s)]))
 
 (* ---- Layer P: "" when the property holds on what has been observed, else the reason ---- *)
 WmsIn(s) == {i \in 1..Len(s) : IsWm(s[i])}
